@@ -12,17 +12,23 @@ def run(ctx):
     # to the real pop traces (ties included) is exercised by the C11 check
     ctx.build(['P_DSearch.vo'])
     ctx.theorems('P_DSearch')
+    # real-valued float32 scores: the heap compares ROUNDED priorities.  P_C01_approx.v: with slack delta (popped exact priority within delta
+    # of the best on the agenda) the first parse is within delta * (nodes(d) + 1) of every derivation d; delta is measured per run in exact
+    # rational arithmetic, the conclusion is checked against exhaustive enumeration, and the slack-measuring replay runs inside coqc
+    import approx_cases
+    approx_cases.run_approx(ctx, 150 if ctx.quick else 1500)
     # the premise of the property about the shipped grammars: one head direction (theorems over the translated grammars)
     ctx.build(['P_C01_grammars.vo'], gens=('tables', 'grammar', 'jaroots'))
     ctx.theorems('P_C01_grammars')
     ctx.trusted += ['implementation-level model coq/AStarImpl.v (tied to parsing.h by trace validation: every pop, its in/out score, span, head, the status, the goal derivations and scores of each run are accepted by the model inside coqc)',
                     'harness/driver.cpp + depccg_verif_rt.py (ctypes bridge, compiled against the repository header on every run) and the DEPCCG_VERIF pop hook',
-                    'float32 arithmetic is exact on the dyadic score grid used (scores k/8, |k| small); rounding on arbitrary reals is not modelled']
+                    'float32 arithmetic is exact on the dyadic score grid used (scores k/8, |k| small); on arbitrary reals the run is an instance of the slack model (AStarApprox.v reach_d) with the slack measured per run']
     return ctx.finish(level='proof', rule=RULES['01'],
-                      assumptions=['exact arithmetic: theorems are about integer-scaled scores; float32 rounding of arbitrary log-probabilities is outside the model',
+                      assumptions=['exact-arithmetic theorems are about integer-scaled scores; for real-valued float32 log-probabilities the statement proved is approximate optimality: first parse >= every derivation d minus delta * (nodes(d) + 1), where delta is the largest amount by which a popped item was below the best agenda item in exact arithmetic (measured per run, <= 5e-6 on the generated inputs; no a-priori bound of delta from the unit roundoff is proved)',
                                    'theorems hold for every maximal-priority pop (the hook supplies the actual order); P_DSearch.v instantiates them for the one run libstdc++\'s heap really takes (deterministic twin, tied to the real traces in the C11 check)',
                                    'theorems with dedup (1-best) need a head-uniform grammar and unary penalty >= 0'])
 
 
 def replay(data):
-    return astar_checks.replay(data, 'c01')
+    import approx_cases
+    return astar_checks.replay(data, 'c01') or approx_cases.replay_approx(data)
